@@ -1,0 +1,18 @@
+//go:build verif
+
+package phase1
+
+import (
+	"math/rand"
+	"sync/atomic"
+)
+
+// VerifGreedySeed, when non-zero, replaces the time-based seed of the greedy cycle breaker's random source
+// so that runs with WithNonDeterministicGreedyCycleBreaker can be replayed by the verification harness.
+var VerifGreedySeed atomic.Int64
+
+func verifReseed(p *greedyProcessor) {
+	if s := VerifGreedySeed.Load(); s != 0 {
+		p.rnd = rand.New(rand.NewSource(s))
+	}
+}
